@@ -127,13 +127,16 @@ Theorem C07_remove_child_interface_preserves :
 Proof. exact api_remove_child. Qed.
 Print Assumptions C07_remove_child_interface_preserves.
 (* peer: all or nothing -- when it raises after the first port was made, the handlers give back the graph before the
-   call; the derived link name must be free (peer does not look) and the two services different *)
+   call.  The library does not look whether the two services differ (peer(a, a) gives two ports of one name: the second
+   handle's cached interface list does not see the first port) nor whether the derived link name is free: either the
+   caller sees to both, or the library does (proposed C07-7, flag fl_peer_checks) *)
 Theorem C07_peer_preserves :
-  forall sub a b st st' r,
-    WF (sg st) -> cls_is (sg st) a KNS = true -> cls_is (sg st) b KNS = true -> a <> b ->
-    (forall an bn, name_of (sg st) a = Some an -> name_of (sg st) b = Some bn ->
-       name_free (sg st) KLink (Some (an ++ dash ++ bn ++ S "-link")) = true) ->
-    ns_peer sub a b st = (st', r) -> WF (sg st').
+  forall fl sub a b st st' r,
+    WF (sg st) -> cls_is (sg st) a KNS = true -> cls_is (sg st) b KNS = true ->
+    (fl_peer_checks fl = false ->
+     a <> b /\ forall an bn, name_of (sg st) a = Some an -> name_of (sg st) b = Some bn ->
+                 name_free (sg st) KLink (Some (an ++ dash ++ bn ++ S "-link")) = true) ->
+    ns_peer fl sub a b st = (st', r) -> WF (sg st').
 Proof. exact api_peer. Qed.
 Print Assumptions C07_peer_preserves.
 (* unpeer (after 24d5e04): every peering between the two services is taken away, ports and link *)
@@ -256,6 +259,25 @@ Theorem C07_remove_link_refuted :
   WF g /\ ~ WF (fst (step false flags_off g w_link_op [] [])).
 Proof. exact remove_link_refuted. Qed.
 Print Assumptions C07_remove_link_refuted.
+Theorem C07_peer_self_refuted :
+  let g := run_hist false flags_off empty_graph w_selfpeer_hist in
+  WF g /\ ~ WF (fst (step false flags_off g w_selfpeer_op w_selfpeer_ids [])) /\
+  snd (step false flags_off g w_selfpeer_op w_selfpeer_ids []) = None.
+Proof. exact peer_self_refuted. Qed.
+Print Assumptions C07_peer_self_refuted.
+Theorem C07_peer_link_name_refuted :
+  let g := run_hist false flags_off empty_graph w_peerlink_hist in
+  WF g /\ ~ WF (fst (step false flags_off g w_peerlink_op w_selfpeer_ids [])) /\
+  snd (step false flags_off g w_peerlink_op w_selfpeer_ids []) = None.
+Proof. exact peer_link_name_refuted. Qed.
+Print Assumptions C07_peer_link_name_refuted.
+Theorem C07_peer_witnesses_refused_when_repaired :
+  step false flags_on (run_hist false flags_on empty_graph w_selfpeer_hist) w_selfpeer_op w_selfpeer_ids []
+    = (run_hist false flags_on empty_graph w_selfpeer_hist, Some ETopology) /\
+  step false flags_on (run_hist false flags_on empty_graph w_peerlink_hist) w_peerlink_op w_selfpeer_ids []
+    = (run_hist false flags_on empty_graph w_peerlink_hist, Some ETopology).
+Proof. exact peer_witnesses_refused_when_repaired. Qed.
+Print Assumptions C07_peer_witnesses_refused_when_repaired.
 (* ... and with the proposed repairs (flags_on) the same two calls are refused and change nothing *)
 Theorem C07_witnesses_refused_when_repaired :
   step false flags_on (run_hist false flags_on empty_graph w_rename_hist) w_rename_op [] []
